@@ -60,6 +60,10 @@ class Scope:
                     t = M.ann_type(s.annotation, fn.mod)
                     if t is not None:
                         self.vars[s.target.id] = t
+                    if s.value is not None:
+                        lst = self.defs.setdefault(s.target.id, [])
+                        if not any(v is s.value for v in lst):
+                            lst.append(s.value)
                 elif isinstance(s, ast.Assign):
                     for tg in s.targets:
                         self._bind(tg, s.value)
@@ -90,7 +94,9 @@ class Scope:
 
     def _bind(self, tg: ast.expr, value: ast.expr) -> None:
         if isinstance(tg, ast.Name):
-            self.defs.setdefault(tg.id, []).append(value)
+            lst = self.defs.setdefault(tg.id, [])
+            if not any(v is value for v in lst):
+                lst.append(value)
             if tg.id in self.vars and self.vars[tg.id] is not None:
                 return
             t = self.R.type_of(value, self)
@@ -160,8 +166,21 @@ class Resolver:
                 return sc.vars[e.id]
             if M.cls(e.id, required=False) is not None and e.id in M.classes:
                 return ("type", e.id)
+            if sc.fn.name == "<classbody>" and sc.fn.cls is not None:
+                cm = sc.fn.cls.methods.get(mangle(sc.fn.cls.name, e.id)) or sc.fn.cls.methods.get(e.id)
+                if cm is not None:
+                    return ("func", cm)
+            if e.id in sc.fn.mod.funcs:
+                return ("func", sc.fn.mod.funcs[e.id])
             if e.id in M.module_funcs:
-                return ("func", M.module_funcs[e.id][0])
+                cands = M.module_funcs[e.id]
+                imp = sc.local_imports.get(e.id) or sc.fn.mod.imports.get(e.id)
+                if imp is not None and len(cands) > 1:
+                    tail = imp[0].lstrip(".").split(".")[-1] if imp[0] else ""
+                    for cf in cands:
+                        if tail and cf.mod.rel.endswith("/" + tail + ".py"):
+                            return ("func", cf)
+                return ("func", cands[0])
             if sc.fn.parent is not None or sc.fn.nested:
                 f = self._lookup_nested(sc.fn, e.id)
                 if f is not None:
